@@ -543,7 +543,7 @@ pub fn minimise(
     let mut attempts = 0u64;
     let mut best = sc0.clone();
     let mut detail = detail0.to_string();
-    let mut budget_ok = |attempts: &u64| *attempts < max_attempts && Instant::now() < t_end;
+    let budget_ok = |attempts: &u64| *attempts < max_attempts && Instant::now() < t_end;
 
     let mut progress = true;
     let mut rounds = 0;
